@@ -10,6 +10,11 @@ CLAIMED = {
     note="Trusted: Coq kernel + vm_compute; stdlib real-number axioms (sig_forall_dec, functional_extensionality_dep) for the R statements; harness (case generation, leaf extraction from degenerate-mesh calls of the same compiled kernel); C compiler/libm; binary64 rounding of model vs reals is compared under a 1e-11 relative tolerance, not proved.",
     technique="Coq proof (induction over mesh dimensions / finite Fubini) + vm_compute correspondence",
     design="DESIGN.md §3 C01"),
+ "C08": dict(
+    text="Coq theorems for every number of components, parameter / magnetic-slot counts and both operations: the index arithmetic of the mixture hands each component exactly its own scale, parameters, magnetic triples and the shared spin state and weight vector (C08_routing, any carrier); the result is scale*sum(scale_k I_k)+background resp. scale*prod(I_k)+background and is invariant under permutation of the components (reals); the pre-repair zero-replacing accumulator is refuted. Tied to the code by evaluating each component alone through the public API and recombining in the Coq binary64 model, compared with the mixture's own output, including components that are exactly zero on the q grid.",
+    note="Trusted: Coq kernel + vm_compute; stdlib real axioms for the R statements; harness positional mapping of combined to component parameter names; components of a magnetic mixture are kept in the polarised state with a 1e-200 magnitude.",
+    technique="Coq proof (list induction, permutation invariance) + vm_compute correspondence",
+    design="DESIGN.md §3 C08"),
 }
 NA_REASON = "check not built yet in this session (planned, see DESIGN.md §7)"
 
